@@ -108,3 +108,34 @@ Lemma suspend_resume_roundtrip s : ph s = Running ->
   snd (api_step s FromOs CSuspend) = ROk /\
   snd (api_step (fst (api_step s FromOs CSuspend)) FromOs CResume) = ROk.
 Proof. intros Hp. cbn [api_step]. rewrite Hp. cbn. repeat split. Qed.
+
+(* rejected and blocked calls have no effect at the level of histories: dropping them from a history
+   changes neither the final state nor the answers to the remaining calls *)
+From Pika Require Import Proofs.LifecycleProofs.
+
+Definition effective (r : resp) : bool := match r with RErr | RBlock => false | _ => true end.
+
+Fixpoint prune (h : list (caller * call)) (s : api) : list (caller * call) :=
+  match h with
+  | [] => []
+  | (c, k) :: r => if effective (snd (api_step s c k)) then (c, k) :: prune r (fst (api_step s c k))
+                   else prune r (fst (api_step s c k))
+  end.
+
+Lemma ineffective_unchanged s c k : effective (snd (api_step s c k)) = false -> fst (api_step s c k) = s.
+Proof.
+  intros H. destruct (snd (api_step s c k)) eqn:E; try discriminate H.
+  - now apply api_err_unchanged.
+  - now apply api_block_unchanged.
+Qed.
+
+Lemma prune_same : forall h s,
+  api_run (prune h s) s = api_run h s /\
+  api_resps (prune h s) s = filter effective (api_resps h s).
+Proof.
+  induction h as [|[c k] r IH]; intros s; cbn [prune api_run api_resps filter]; [split; reflexivity|].
+  destruct (effective (snd (api_step s c k))) eqn:E.
+  - cbn [api_run api_resps]. destruct (IH (fst (api_step s c k))) as [H1 H2]. rewrite H1, H2. split; reflexivity.
+  - pose proof (ineffective_unchanged s c k E) as Hs.
+    destruct (IH (fst (api_step s c k))) as [H1 H2]. rewrite Hs in *. split; assumption.
+Qed.
